@@ -4,7 +4,7 @@ behaviour through the four real transports against a scripted router (WampSessio
 from harness import common, tlc
 from harness.props import sess_common
 
-BEHS = ("value", "callresult", "none", "unserializable", "oversize", "apperror", "mapped", "unmapped")
+BEHS = ("value", "callresult", "none", "unserializable", "oversize", "apperror", "bigerror", "mapped", "unmapped")
 
 
 def real_transports(res):
